@@ -153,7 +153,8 @@ Record Inv (f : facts) (c : cfg) (s : state) : Prop := mkInv {
   i_fut_run : forall t, s_futs s t = FRunning ->
       exists w i j, w < c_workers c /\ s_ws s w = WRun t i j;
   i_submit : forall k, s_pc s = MSubmit k ->
-      k <= ntasks c /\ forall t, k <= t -> s_futs s t = FNone;
+      k <= ntasks c /\ (forall t, k <= t -> s_futs s t = FNone) /\
+      (forall t, t < k -> s_futs s t <> FNone);
   i_enter : s_pc s = MEnterMgr -> forall t, s_futs s t = FNone;
   i_nonone : submitted_pc (s_pc s) = true ->
       forall t, t < ntasks c -> s_futs s t <> FNone;
@@ -175,6 +176,7 @@ Record Inv (f : facts) (c : cfg) (s : state) : Prop := mkInv {
   i_exc : forall t e, s_futs s t = FExc e ->
       exists p e0, c_plan c = Some p /\ p_task p = t /\
         p_kind p = KRaise e0 /\ e = raise_class f c t (p_i p) e0;
+  i_exc_fired : forall t e, s_futs s t = FExc e -> s_fired s = true;
   i_pc_exc : forall e, pc_exc (s_pc s) = Some e ->
       (exists t e0, s_futs s t = FExc e0 /\ e = main_class f e0) \/
       (e = main_class f E_BPP /\ exists t, s_futs s t = FBroken) \/
@@ -275,7 +277,7 @@ Ltac step_cases f Hok H :=
   | step _ _ ?s ?a = Some _ =>
       destruct s as [pc futs ws info istop ibud res rstop rbud store coll
                         pool mgr fired];
-      destruct a; unf_step H;
+      try (is_var a; destruct a); unf_step H;
       split_step H; inversion H; subst; clear H; projs;
       rewrite ?(fin_entry_ok f _ Hok), ?(next_after_res_ok f _ _ Hok) in *;
       unfold next_after_info, after_fin in *
@@ -365,7 +367,8 @@ Ltac grab HI :=
   pose proof (i_res_quiet _ _ _ HI) as Hrq; pose proof (i_info_quiet _ _ _ HI) as Hiq;
   pose proof (i_all_dead _ _ _ HI) as Had; pose proof (i_mgr _ _ _ HI) as Hmg;
   pose proof (i_orphan _ _ _ HI) as Hor; pose proof (i_info_ns _ _ _ HI) as Hins;
-  pose proof (i_res_ns _ _ _ HI) as Hrns; clear HI.
+  pose proof (i_res_ns _ _ _ HI) as Hrns;
+  pose proof (i_exc_fired _ _ _ HI) as Hef; clear HI.
 
 Lemma wholds_kill x : wholds (kill x) = wholds x.
 Proof. destruct x as [| t i [r|] | h]; reflexivity. Qed.
@@ -457,62 +460,78 @@ Variable f : facts.
 Variable c : cfg.
 Hypothesis Hok : facts_ok f = true.
 Variables (s : state) (a : actor) (s' : state).
-Hypothesis HI : Inv f c s.
-Hypothesis H : step f c s a = Some s'.
+Hypothesis INV0 : Inv f c s.
+Hypothesis STEP0 : step f c s a = Some s'.
 
 Lemma pres_store_w :
   forall w, s_store s' = Some (OWorker w) <-> wholds (s_ws s' w) = true.
 Proof.
-  grab HI. clear - Hok H Hsw Hsi Hsm Hsr Hins Hrns.
-  step_cases f Hok H; try assumption; intros w'; fl_facts; dws;
+  grab INV0. clear - Hok STEP0 Hsw Hsi Hsm Hsr Hins Hrns.
+  step_cases f Hok STEP0; try assumption; intros w'; fl_facts; dws;
     inst_all Hsw; norm; fin.
 Qed.
 Lemma pres_store_info : s_store s' = Some OInfo <-> s_info s' = IInStore.
 Proof.
-  grab HI. clear - Hok H Hsw Hsi Hsm Hsr Hins Hrns.
-  step_cases f Hok H; try assumption; fl_facts; dws; inst_all Hsw; norm; fin.
+  grab INV0. clear - Hok STEP0 Hsw Hsi Hsm Hsr Hins Hrns.
+  step_cases f Hok STEP0; try assumption; fl_facts; dws; inst_all Hsw; norm; fin.
 Qed.
 Lemma pres_store_main : s_store s' = Some OMain <-> s_pc s' = MUnproxyIn.
 Proof.
-  grab HI. clear - Hok H Hsw Hsi Hsm Hsr Hins Hrns.
-  step_cases f Hok H; try assumption; fl_facts; dws; inst_all Hsw; norm; fin.
+  grab INV0. clear - Hok STEP0 Hsw Hsi Hsm Hsr Hins Hrns.
+  step_cases f Hok STEP0; try assumption; fl_facts; dws; inst_all Hsw; norm; fin.
 Qed.
 Lemma pres_store_res : s_store s' <> Some ORes.
 Proof.
-  grab HI. clear - Hok H Hsw Hsi Hsm Hsr Hins Hrns.
-  step_cases f Hok H; try assumption; norm; fin.
+  grab INV0. clear - Hok STEP0 Hsw Hsi Hsm Hsr Hins Hrns.
+  step_cases f Hok STEP0; try assumption; norm; fin.
 Qed.
 Lemma pres_coll_info : s_coll s' = Some OInfo <-> s_info s' = IInColl.
 Proof.
-  grab HI. clear - Hok H Hci Hcr Hcm Hcw Hins Hrns.
-  step_cases f Hok H; try assumption; norm; fin.
+  grab INV0. clear - Hok STEP0 Hci Hcr Hcm Hcw Hins Hrns.
+  step_cases f Hok STEP0; try assumption; norm; fin.
 Qed.
 Lemma pres_coll_res :
   s_coll s' = Some ORes <-> (s_res s' = RInColl \/ s_res s' = RFinalIn).
 Proof.
-  grab HI. clear - Hok H Hci Hcr Hcm Hcw Hins Hrns.
-  step_cases f Hok H; try assumption; norm; fin.
+  grab INV0. clear - Hok STEP0 Hci Hcr Hcm Hcw Hins Hrns.
+  step_cases f Hok STEP0; try assumption; norm; fin.
 Qed.
 Lemma pres_coll_main : s_coll s' = Some OMain <-> s_pc s' = MPurgeIn.
 Proof.
-  grab HI. clear - Hok H Hci Hcr Hcm Hcw Hins Hrns.
-  step_cases f Hok H; try assumption; norm; fin.
+  grab INV0. clear - Hok STEP0 Hci Hcr Hcm Hcw Hins Hrns.
+  step_cases f Hok STEP0; try assumption; norm; fin.
 Qed.
 Lemma pres_coll_w : forall w, s_coll s' <> Some (OWorker w).
 Proof.
-  grab HI. clear - Hok H Hci Hcr Hcm Hcw Hins Hrns.
-  step_cases f Hok H; try assumption; norm; fin.
+  grab INV0. clear - Hok STEP0 Hci Hcr Hcm Hcw Hins Hrns.
+  step_cases f Hok STEP0; try assumption; norm; fin.
 Qed.
 Lemma pres_range_w : forall w, c_workers c <= w -> s_ws s' w = WIdle.
 Proof.
-  grab HI. clear - Hok H Hrw.
-  step_cases f Hok H; try assumption; intros w' Hw'; norm; inst_all Hrw;
+  grab INV0. clear - Hok STEP0 Hrw.
+  step_cases f Hok STEP0; try assumption; intros w' Hw'; norm; inst_all Hrw;
     fin; try lia; auto.
 Qed.
 Lemma pres_range_t : forall t, ntasks c <= t -> s_futs s' t = FNone.
 Proof.
-  grab HI. clear - Hok H Hrt Hrf.
-  step_cases f Hok H; try assumption; intros t' Ht'; norm; fwd_run Hrf;
+  grab INV0. clear - Hok STEP0 Hrt Hrf.
+  step_cases f Hok STEP0; try assumption; intros t' Ht'; norm; fwd_run Hrf;
     inst_all Hrt; fin; try lia; auto.
+Qed.
+Lemma pres_run_fut : forall w t i j, s_ws s' w = WRun t i j ->
+  t < ntasks c /\ (s_futs s' t = FRunning \/ s_futs s' t = FBroken).
+Proof.
+  grab INV0. clear - Hok STEP0 Hrf Huq Hsucc Hsub Hrt.
+  step_cases f Hok STEP0; try assumption; intros w' t' i' j' Hr; norm; inv_eqs;
+    try (specialize (Hsub _ eq_refl); destruct Hsub as (? & Hsub' & ?);
+         pose proof (Hsub' _ (le_n _)));
+    fwd_run Hrf; fwd_uq Huq; fin; lia'.
+Qed.
+Lemma pres_uniq : forall w1 w2 t i1 j1 i2 j2,
+  s_ws s' w1 = WRun t i1 j1 -> s_ws s' w2 = WRun t i2 j2 -> w1 = w2.
+Proof.
+  grab INV0. clear - Hok STEP0 Hrf Huq.
+  step_cases f Hok STEP0; try assumption; intros w1 w2 t' i1 j1 i2 j2 H1 H2;
+    norm; inv_eqs; fwd_run Hrf; fin; lia'; try (eapply Huq; eassumption).
 Qed.
 End Pres.
